@@ -208,8 +208,8 @@ def axes(repo, run, fn):
                    text="t_eval loop")
 
 
-def clipping(repo, run, fn):
-    rid = run.rule("C18.5", "the step-clipping callback is registered exactly when a bound was given and clips the MAGNITUDE of the signed step (sign(dt) * "
+def clipping(repo, run, fn, rule_id="C18.5"):
+    rid = run.rule(rule_id, "the step-clipping callback is registered exactly when a bound was given and clips the MAGNITUDE of the signed step (sign(dt) * "
                             "clip(|dt|, min, max)), with max<-max_step and min<-min_step", floor=3)
     cb = None
     for st in ast.walk(fn):
@@ -217,7 +217,7 @@ def clipping(repo, run, fn):
             cb = st
     if cb is None:
         run.judged(rid, "callback present", ok=False)
-        run.report("C18.5", DS, fn, "no step-clipping callback is defined", text="missing clipping callback")
+        run.report(rule_id, DS, fn, "no step-clipping callback is defined", text="missing clipping callback")
         return
     iff = cb._parent
     okreg = isinstance(iff, ast.If) and {"'max_step' in options", "'min_step' in options"} <= {src(v) for v in ast.walk(iff.test) if isinstance(v, ast.Compare)} and \
@@ -225,7 +225,7 @@ def clipping(repo, run, fn):
             isinstance(s2, ast.Expr) and isinstance(s2.value, ast.Call) and src(s2.value.func).endswith(".append") and src(s2.value.args[0]) == cb.name for s2 in iff.body)
     run.judged(rid, "registered under `%s`" % (src(iff.test) if isinstance(iff, ast.If) else None), ok=okreg)
     if not okreg:
-        run.report("C18.5", DS, cb, "the clipping callback is not registered exactly when max_step or min_step was given", text="clipping registration")
+        run.report(rule_id, DS, cb, "the clipping callback is not registered exactly when max_step or min_step was given", text="clipping registration")
     p = cb.args.args[0].arg
     sd = Seeds(params={}, attrs={p + ".dt": "D"}, names={"min_step": "M", "max_step": "M"})
     ke = KindEngine(cb, sd, disciplines=("DIR",))
@@ -234,9 +234,9 @@ def clipping(repo, run, fn):
     okk = not vs and len(stores) == 1 and ke.kind(stores[0].value) == "D"
     run.judged(rid, "clipping expression: %s  [kind %s]" % (src(stores[0].value) if stores else None, ke.kind(stores[0].value) if stores else None), ok=okk)
     if vs:
-        run.report("C18.5", DS, vs[0].node, "DIR discipline: %s: for a decreasing t_span the signed step is clipped into [min_step, max_step] >= 0 and integration reverses or stalls" % vs[0].why)
+        run.report(rule_id, DS, vs[0].node, "DIR discipline: %s: for a decreasing t_span the signed step is clipped into [min_step, max_step] >= 0 and integration reverses or stalls" % vs[0].why)
     elif not okk:
-        run.report("C18.5", DS, stores[0] if stores else cb, "the clipping callback does not store a signed step")
+        run.report(rule_id, DS, stores[0] if stores else cb, "the clipping callback does not store a signed step")
     # bounds bound correctly
     okb = False
     for c in [c for c in ast.walk(cb) if isinstance(c, ast.Call) and fname(c) == "clip"]:
@@ -249,7 +249,7 @@ def clipping(repo, run, fn):
     okb = okb and srcs.get("max_step", "").startswith("options.get('max_step'") and srcs.get("min_step", "").startswith("options.get('min_step'")
     run.judged(rid, "clip(min=min_step, max=max_step) with the bounds read from options", ok=okb)
     if not okb:
-        run.report("C18.5", DS, cb, "the clipping bounds are not (min_step, max_step) as given in the options: a recorded step can exceed max_step", text="clipping bounds")
+        run.report(rule_id, DS, cb, "the clipping bounds are not (min_step, max_step) as given in the options: a recorded step can exceed max_step", text="clipping bounds")
 
 
 def t_eval_rule(repo, run, fn):
